@@ -22,7 +22,7 @@ use rayon::prelude::*;
 use read_fonts::tables::cmap as rc;
 use read_fonts::{FontRef, TableProvider};
 use serde_json::{json, Value};
-use skrifa::charmap::{Charmap, MapVariant};
+use skrifa::charmap::{Charmap, MapVariant, MappingIndex};
 use skrifa::MetadataProvider;
 use std::collections::HashSet;
 use std::sync::OnceLock;
@@ -318,6 +318,8 @@ fn check_compiled(run: &Run, m: &Mapping, full_bmp: bool, font_bytes: &[u8], l: 
     };
     let charmap = Charmap::new(&font);
     let charmap2 = font.charmap();
+    // the cacheable route: indices found once, character map materialised from them
+    let charmap_ix = MappingIndex::new(&font).charmap(&font);
     // sub-tables + structure digest (N: distinct segment structures)
     let mut h = Fnv::new();
     let mut c4: Vec<rc::Cmap4> = vec![];
@@ -403,6 +405,11 @@ fn check_compiled(run: &Run, m: &Mapping, full_bmp: bool, font_bytes: &[u8], l: 
         if got != exp.map(|g| GlyphId::new(g as u32)) {
             report("Charmap::map", c, exp, got);
         }
+        let got = charmap_ix.map(c);
+        if got != exp.map(|g| GlyphId::new(g as u32)) {
+            report("MappingIndex::charmap().map", c, exp, got);
+        }
+        lookups += 1;
         for t in &c4 {
             let got = t.map_codepoint(c);
             let e4 = if c <= 0xFFFF { exp } else { None };
@@ -495,6 +502,32 @@ fn check_compiled(run: &Run, m: &Mapping, full_bmp: bool, font_bytes: &[u8], l: 
         run.violation(
             &identity,
             &format!("mapping {:x?}: {detail}; mappings() gave {:x?}", m, &got[..got.len().min(12)]),
+            case_json(m, full_bmp),
+        );
+    }
+    l.trans += 2;
+    let got: Vec<(u32, u32)> = charmap_ix.mappings().take(cap).map(|(c, g)| (c, g.to_u32())).collect();
+    if let Some((id, detail)) = diff_enumeration(&got, &exp_all) {
+        run.violation(
+            &format!("MappingIndex::charmap().mappings {id}"),
+            &format!("mapping {:x?}: {detail}; mappings() gave {:x?}", m, &got[..got.len().min(12)]),
+            case_json(m, full_bmp),
+        );
+    }
+    // the two routes must also agree on what they selected
+    if (charmap_ix.has_map(), charmap_ix.is_symbol(), charmap_ix.has_variant_map())
+        != (charmap.has_map(), charmap.is_symbol(), charmap.has_variant_map())
+        || charmap.has_map() != !cmap.encoding_records().is_empty()
+        || charmap.is_symbol()
+    {
+        run.violation(
+            "MappingIndex::charmap() / Charmap::new disagree on has_map / is_symbol / has_variant_map",
+            &format!(
+                "mapping {:x?}: index route {:?}, direct {:?}",
+                m,
+                (charmap_ix.has_map(), charmap_ix.is_symbol(), charmap_ix.has_variant_map()),
+                (charmap.has_map(), charmap.is_symbol(), charmap.has_variant_map())
+            ),
             case_json(m, full_bmp),
         );
     }
@@ -931,6 +964,11 @@ fn check_uvs(run: &Run, spec: &[SelSpec], l: &mut Local) {
             run.violation("Charmap does not select the format-14 sub-table", "", uvs_json(spec));
             return;
         }
+        let charmap_ix = MappingIndex::new(&font).charmap(&font);
+        if !charmap_ix.has_variant_map() || !charmap_ix.has_map() || charmap_ix.is_symbol() {
+            run.violation("MappingIndex::charmap() does not select the format-14 / format-4 sub-tables", "", uvs_json(spec));
+            return;
+        }
         let mut lookups = 0u64;
         for cp in UVS_QUERY_CPS {
             for sel in UVS_QUERY_SELS {
@@ -957,7 +995,15 @@ fn check_uvs(run: &Run, spec: &[SelSpec], l: &mut Local) {
                         uvs_json(spec),
                     );
                 }
-                lookups += 2;
+                let got = charmap_ix.map_variant(cp, sel);
+                if got != exp && !(alt.is_some() && got == alt) {
+                    run.violation(
+                        &format!("MappingIndex::charmap().map_variant wrong answer for {kind} ({})", region(cp)),
+                        &format!("map_variant(U+{cp:04X}, U+{sel:04X}) = {got:?}, encoded {exp:?}; {spec:x?}"),
+                        uvs_json(spec),
+                    );
+                }
+                lookups += 3;
             }
         }
         // enumerations (as sets: the statement fixes the answers, not an order, for sequences)
@@ -1004,8 +1050,28 @@ fn check_uvs(run: &Run, spec: &[SelSpec], l: &mut Local) {
                 uvs_json(spec),
             );
         }
+        let mut got: Vec<(u32, u32, u32)> = charmap_ix
+            .variant_mappings()
+            .take(exp.len() + 1000)
+            .map(|(c, s, v)| (c, s, norm(v)))
+            .collect();
+        got.sort();
+        if got != exp {
+            run.violation(
+                "MappingIndex::charmap().variant_mappings differs from the encoded sequences",
+                &format!("{spec:x?}: got {} entries, expected {}", got.len(), exp.len()),
+                uvs_json(spec),
+            );
+        }
         // the nominal mapping next to it is undisturbed
         for (c, g) in UVS_BASE {
+            if charmap_ix.map(c) != Some(GlyphId::new(g as u32)) {
+                run.violation(
+                    "MappingIndex::charmap().map wrong answer for a mapped character (BMP) beside a Cmap14",
+                    &format!("U+{c:04X}"),
+                    uvs_json(spec),
+                );
+            }
             if charmap.map(c) != Some(GlyphId::new(g as u32)) {
                 run.violation(
                     "Charmap::map wrong answer for a mapped character (BMP) beside a Cmap14",
@@ -1298,12 +1364,21 @@ fn check_edge(run: &Run, d: &Value, l: &mut Local) {
             }
         };
         let charmap = Charmap::new(&font);
+        let charmap_ix = MappingIndex::new(&font).charmap(&font);
         let mut lookups = 0u64;
         let mut budget = 3;
         for &(c, g) in &m {
             // the exempt characters themselves: any answer, but no panic
             let top = cmap.map_codepoint(c);
             let hi = charmap.map(c);
+            if charmap_ix.map(c) != hi && budget > 0 {
+                budget -= 1;
+                run.violation(
+                    &format!("MappingIndex::charmap().map differs from Charmap::new(..).map ({family} input, {})", region(c)),
+                    &format!("{d}: U+{c:04X} -> {:?} vs {hi:?}", charmap_ix.map(c)),
+                    case(),
+                );
+            }
             lookups += 2;
             if exempt(c, g) {
                 continue;
